@@ -3576,7 +3576,10 @@ def known_blank_lists() -> list[tuple[str, tuple[str, ...]]]:
     from srctools.fgd import HELPER_IMPL, HelperTypes
     if not _KNOWN_BLANK_CACHE:
         for name in KNOWN_BLANK_NAMES:
-            impl = HELPER_IMPL[HelperTypes(name)]
+            try:
+                impl = HELPER_IMPL[HelperTypes(name)]
+            except (ValueError, KeyError):
+                continue                    # a helper type this source does not have: nothing to generate for it
             for n in range(1, 6):
                 for args in itertools.product(KNOWN_BLANK_ATOMS, repeat=n):
                     if '' not in args:
